@@ -70,22 +70,54 @@ inline void shift_right(T *first, SizeType n, SizeType count) noexcept {
   (void)amc::uninitialized_relocate_n(first, n, first + count);
 }
 
+/// Undo 'shift_right(first, n, count)' when filling the 'count' opened slots failed: move the 'n' elements back to
+/// 'first' and destroy what is left behind. 'nbConstructed' is the number of objects alive in the part of the opened
+/// slots that was uninitialized memory after the shift, starting at 'first + n' (only possible if n < count).
+template <class T, class SizeType, typename std::enable_if<!amc::is_trivially_relocatable<T>::value, bool>::type = true>
+void unshift_right(T *first, SizeType n, SizeType count, SizeType nbConstructed) noexcept(is_shift_nothrow<T>::value) {
+  std::move(first + count, first + count + n, first);
+  if (n < count) {
+    amc::destroy_n(first + n, nbConstructed);
+    amc::destroy_n(first + count, n);
+  } else {
+    amc::destroy_n(first + n, count);
+  }
+}
+
+template <class T, class SizeType, typename std::enable_if<amc::is_trivially_relocatable<T>::value, bool>::type = true>
+inline void unshift_right(T *first, SizeType n, SizeType count, SizeType) noexcept {
+  (void)amc::uninitialized_relocate_n(first + count, n, first);
+}
+
 /// Fill 'count' 'v' values at memory starting at 'first', with first 'n' slots on initialized memory,
-/// and next 'count - n' slots on uninitialized memory if there is overlap
+/// and next 'count - n' slots on uninitialized memory if there is overlap.
+/// To be used in conjunction with 'shift_right': if a copy throws, the shift is undone.
 template <class T, class SizeType, typename std::enable_if<!amc::is_trivially_relocatable<T>::value, bool>::type = true>
 inline void fill_after_shift(T *first, SizeType n, SizeType count, const T &v) {
-  if (n < count) {
-    std::uninitialized_fill_n(first + n, count - n, v);
-    std::fill_n(first, n, v);
-  } else {
-    std::fill_n(first, count, v);
+  SizeType nbConstructed = 0;
+  try {
+    if (n < count) {
+      std::uninitialized_fill_n(first + n, count - n, v);
+      nbConstructed = count - n;
+      std::fill_n(first, n, v);
+    } else {
+      std::fill_n(first, count, v);
+    }
+  } catch (...) {
+    unshift_right(first, n, count, nbConstructed);
+    throw;
   }
 }
 
 /// shift_right leaves only uninitialized memory for trivially relocatable type
 template <class T, class SizeType, typename std::enable_if<amc::is_trivially_relocatable<T>::value, bool>::type = true>
-inline void fill_after_shift(T *first, SizeType, SizeType count, const T &v) {
-  std::uninitialized_fill_n(first, count, v);
+inline void fill_after_shift(T *first, SizeType n, SizeType count, const T &v) {
+  try {
+    std::uninitialized_fill_n(first, count, v);
+  } catch (...) {
+    unshift_right(first, n, count, static_cast<SizeType>(0));
+    throw;
+  }
 }
 
 /// copy from a range to available location divided in two parts: one on initialized memory, other one on raw memory
@@ -111,28 +143,40 @@ inline void assign_n(ForwardIt first, SizeType count, T *d_first, SizeType) {
 }
 
 /// Copy 'count' elements starting at 'first' to 'pos' location
-/// To be used in conjunction with 'shift_right'
+/// To be used in conjunction with 'shift_right': if a copy throws, the shift is undone.
 template <class ForwardIt, class SizeType, class T,
           typename std::enable_if<!amc::is_trivially_relocatable<T>::value, bool>::type = true>
 inline void copy_after_shift(ForwardIt first, SizeType n, SizeType count, T *pos) {
-  if (n < count) {
-    if (n > 0) {
-      *pos++ = *first;  // rewrite copy_n to avoid double iteration on the input elements
-      for (SizeType i = 1; i < n; ++i) {
-        *pos++ = *++first;
+  T *cur = pos;
+  try {
+    if (n < count) {
+      if (n > 0) {
+        *cur++ = *first;  // rewrite copy_n to avoid double iteration on the input elements
+        for (SizeType i = 1; i < n; ++i) {
+          *cur++ = *++first;
+        }
+        (void)++first;
       }
-      (void)++first;
+      amc::uninitialized_copy_n(first, count - n, cur);
+    } else {
+      std::copy_n(first, count, cur);
     }
-    amc::uninitialized_copy_n(first, count - n, pos);
-  } else {
-    std::copy_n(first, count, pos);
+  } catch (...) {
+    // uninitialized_copy_n destroys what it constructed: no object is alive in the formerly uninitialized slots
+    unshift_right(pos, n, count, static_cast<SizeType>(0));
+    throw;
   }
 }
 
 template <class ForwardIt, class SizeType, class T,
           typename std::enable_if<amc::is_trivially_relocatable<T>::value, bool>::type = true>
-inline void copy_after_shift(ForwardIt first, SizeType, SizeType count, T *pos) {
-  amc::uninitialized_copy_n(first, count, pos);
+inline void copy_after_shift(ForwardIt first, SizeType n, SizeType count, T *pos) {
+  try {
+    amc::uninitialized_copy_n(first, count, pos);
+  } catch (...) {
+    unshift_right(pos, n, count, static_cast<SizeType>(0));
+    throw;
+  }
 }
 
 /// Call destroy from a memory that has been moved from only for non trivially relocatable types
